@@ -136,7 +136,16 @@ pub trait NamingContext {
     fn compute_function_name(&self, name: &str, _rename_all: &Option<RenameRule>) -> String {
         // Always use TypeScript conventions (camelCase for functions)
         // Command-level rename_all doesn't affect the function name
-        self.apply_naming_convention(name, RenameRule::CamelCase)
+        let function_name = self.apply_naming_convention(name, RenameRule::CamelCase);
+        if is_reserved_word(&function_name) {
+            // `fn delete()` is fine in Rust, `function delete()` is not TypeScript
+            format!("{}_", function_name)
+        } else if function_name.is_empty() {
+            // a name made of underscores only has no camelCase form
+            name.to_string()
+        } else {
+            function_name
+        }
     }
 
     /// Compute the TypeScript type name (PascalCase)
@@ -148,6 +157,62 @@ pub trait NamingContext {
         // Command-level rename_all doesn't affect the type name
         self.apply_naming_convention(name, RenameRule::PascalCase)
     }
+}
+
+/// Words that cannot name a function in an ES module (reserved words, strict-mode reserved
+/// words and the two identifiers strict mode refuses to bind)
+fn is_reserved_word(name: &str) -> bool {
+    matches!(
+        name,
+        "arguments"
+            | "await"
+            | "break"
+            | "case"
+            | "catch"
+            | "class"
+            | "const"
+            | "continue"
+            | "debugger"
+            | "default"
+            | "delete"
+            | "do"
+            | "else"
+            | "enum"
+            | "eval"
+            | "export"
+            | "extends"
+            | "false"
+            | "finally"
+            | "for"
+            | "function"
+            | "if"
+            | "implements"
+            | "import"
+            | "in"
+            | "instanceof"
+            | "interface"
+            | "let"
+            | "new"
+            | "null"
+            | "package"
+            | "private"
+            | "protected"
+            | "public"
+            | "return"
+            | "static"
+            | "super"
+            | "switch"
+            | "this"
+            | "throw"
+            | "true"
+            | "try"
+            | "typeof"
+            | "var"
+            | "void"
+            | "while"
+            | "with"
+            | "yield"
+    )
 }
 
 /// Template context wrapper for CommandInfo with computed TypeScript-specific fields
